@@ -32,9 +32,24 @@ use crate::abi::fuse_abi::*;
 use crate::api::filesystem::*;
 use crate::api::pseudo_fs::PseudoFs;
 
+// Verification yield points (compiled only with `--cfg fuse_backend_rs_verif`): the loads and stores of
+// the ArcSwap snapshots `mountpoints`, `superblocks` and `mount_id_mappings`, see verif_hooks.rs.
+#[cfg(fuse_backend_rs_verif)]
+macro_rules! vfs_yield {
+    ($l:expr) => {
+        crate::api::vfs::verif_hooks::yield_point($l)
+    };
+}
+#[cfg(not(fuse_backend_rs_verif))]
+macro_rules! vfs_yield {
+    ($l:expr) => {};
+}
+
 #[cfg(feature = "async-io")]
 mod async_io;
 mod sync_io;
+#[cfg(fuse_backend_rs_verif)]
+pub mod verif_hooks;
 
 /// Current directory
 pub const CURRENT_DIR_CSTR: &[u8] = b".\0";
@@ -407,10 +422,12 @@ impl Vfs {
             if mnt.fs_idx != fs_idx {
                 let mut mappings = self.mount_id_mappings.load().deref().deref().clone();
                 mappings[mnt.fs_idx as usize] = None;
+                vfs_yield!("st_map");
                 self.mount_id_mappings.store(Arc::new(mappings));
             }
         }
         superblocks[fs_idx as usize] = Some(Arc::new(fs));
+        vfs_yield!("st_sb");
         self.superblocks.store(Arc::new(superblocks));
         trace!("fs_idx {} inode {}", fs_idx, inode);
 
@@ -421,6 +438,7 @@ impl Vfs {
             _path: path.to_string(),
         });
         mountpoints.insert(inode, mountpoint);
+        vfs_yield!("st_mp");
         self.mountpoints.store(Arc::new(mountpoints));
 
         Ok(())
@@ -463,11 +481,13 @@ impl Vfs {
         // index may still hold the mapping of a mount that failed or was over-mounted.
         let mut mappings = self.mount_id_mappings.load().deref().deref().clone();
         mappings[index as usize] = id_mapping;
+        vfs_yield!("st_map");
         self.mount_id_mappings.store(Arc::new(mappings));
         if let Err(e) = self.insert_mount_locked(fs, entry, index, path) {
             // The index stays vacant: do not leave the mapping behind.
             let mut mappings = self.mount_id_mappings.load().deref().deref().clone();
             mappings[index as usize] = None;
+            vfs_yield!("st_map");
             self.mount_id_mappings.store(Arc::new(mappings));
             return Err(VfsError::Mount(e));
         }
@@ -524,6 +544,7 @@ impl Vfs {
                     self.root.evict_inode(inode);
                 }
                 mountpoints.remove(&inode);
+                vfs_yield!("st_mp");
                 self.mountpoints.store(Arc::new(mountpoints));
                 x.fs_idx
             })
@@ -537,11 +558,13 @@ impl Vfs {
         if let Some(fs) = superblocks[fs_idx as usize].take() {
             fs.destroy();
         }
+        vfs_yield!("st_sb");
         self.superblocks.store(Arc::new(superblocks));
 
         // Clear per-mount id_mapping for this slot.
         let mut mappings = self.mount_id_mappings.load().deref().deref().clone();
         mappings[fs_idx as usize] = None;
+        vfs_yield!("st_map");
         self.mount_id_mappings.store(Arc::new(mappings));
 
         Ok((inode, parent))
@@ -602,6 +625,7 @@ impl Vfs {
     /// global `id_mapping` when no per-mount override is set (or when
     /// `fs_idx` refers to the pseudo filesystem).
     fn get_effective_id_mapping(&self, fs_idx: VfsIndex) -> Option<(u32, u32, u32)> {
+        vfs_yield!("ld_map");
         if let Some(m) = self
             .mount_id_mappings
             .load()
@@ -702,6 +726,7 @@ impl Vfs {
     }
 
     fn get_fs_by_idx(&self, fs_idx: VfsIndex) -> Result<Arc<BackFileSystem>> {
+        vfs_yield!("ld_sb");
         let superblocks = self.superblocks.load();
 
         if let Some(fs) = &superblocks[fs_idx as usize] {
@@ -715,6 +740,7 @@ impl Vfs {
         if inode.is_pseudo_fs() {
             // ROOT_ID is special, we need to check if we have a mountpoint on the vfs root
             if inode.ino() == ROOT_ID {
+                vfs_yield!("ld_mp");
                 if let Some(mnt) = self.mountpoints.load().get(&inode.ino()).cloned() {
                     let fs = self.get_fs_by_idx(mnt.fs_idx)?;
                     return Ok((Right(fs), VfsInode::new(mnt.fs_idx, mnt.ino)));
@@ -737,6 +763,7 @@ impl Vfs {
         trace!("lookup pseudo ino {} name {:?}", idata.ino(), name);
         let mut entry = fs.lookup(ctx, idata.ino(), name)?;
 
+        vfs_yield!("ld_mp");
         match self.mountpoints.load().get(&entry.inode) {
             Some(mnt) => {
                 // cross mountpoint, return mount root entry. It has been converted (inode
